@@ -206,6 +206,10 @@ UNI = ["\u0131", "\u017f", "\ufb01", "\ufb02", "\ufb00", "\ufb03", "\u0149", "\u
        "\U00010400", "\u2003", "\u00a0", "\u0416", "\u03c2"]
 
 
+ESCAPES = ["\\n", "\\t", "\\r", "\\\\", "\\u0041", "\\u00e9", "\\u007d", "\\u0000", "\\ud800", "\\udfff", "\\uDBFF", "\\ud83d\\ude00",
+           "\\ude00\\ud83d", "\\uFFFF", "\\ufffe", "\\u12", "\\u", "\\uzzzz", "\\u00zz", "\\U0001F600", "\\x41", "\\0", "\\/", "\\b", "\\f", "\\'", "\\ "]
+
+
 def g_string(rng, ascii_only=False, noback=False):
     n = rng.range(0, 10)
     out = ""
@@ -217,6 +221,10 @@ def g_string(rng, ascii_only=False, noback=False):
             c = rng.choice(" \t(),=<>![]{};:.'-_")
         elif r < 17:
             c = "\\"
+            if not noback and rng.chance(1, 2):
+                # a whole escape sequence, as a client that JSON-encodes its strings would send it (\uXXXX incl.
+                # lone and paired surrogates, short and non-hex forms), and the other usual ones
+                c = rng.choice(ESCAPES)
         elif ascii_only:
             c = "x"
         else:
@@ -1115,6 +1123,12 @@ def cases(rng, tier):
                  '{"a":"}"} x', '{"a":"}"}}', '{"a":\'}\'}', '{"a":"}" "}"}', '{""}"}', '{"a":"b"c"}"}']:
         addt("nest", "STORE e FOR c PAYLOAD " + body)
         addt("nest", "STORE e FOR \"c}\" PAYLOAD " + body)
+    # escape sequences inside quoted strings, in commands that are tokenised as a whole before they are routed
+    for esc in ESCAPES:
+        addt("nest", 'STORE e FOR c PAYLOAD {"text":"hi ' + esc + '"}')
+        addt("nest", 'CREATE USER bob WITH KEY "k' + esc + '"')
+        addt("nest", 'QUERY e FOR "c' + esc + '" WHERE s = "v' + esc + 'w"')
+        addt("nest", 'REPLAY FOR "' + esc + '"')
     for t in ["QUERY e WHERE x = +3", "QUERY e LIMIT +3", "PING +", "QUERY e WHERE a = 1 + 2", "QUERY e FOR \"a+b\"", "CREATE USER a+b", "SHOW + x"]:
         addt("nest", t)
     for n in (100, 20000):
